@@ -135,7 +135,7 @@ def main():
   cases = [(p, ix) for p in plans for ix in idxs]
   rnd2 = random.Random(seed)
   if tier == "quick":
-    cases = rnd2.sample(cases, 420)
+    cases = rnd2.sample(cases, 280)
   target = ForgivingFactorBits(8, 8, 2, config={"default": ["parameters", "activations"]})
   for j, (plan, ix) in enumerate(cases):
     if j % nshards != shard:
